@@ -93,7 +93,7 @@ def check(run, replay=None):
         # model input
         model = os.path.join(C.OCAML, "driver_c04.exe")
         first = "LAYOUT " + " ; ".join("%s %s" % (n, " ".join(map(str, lay[n]))) for n in G.ORDER)
-        minp = first + "\n" + "\n".join("%d %s" % (k, G.stmt_sx(s, lay)) for k, s in enumerate(stmts)) + "\n"
+        minp = first + "\n" + "\n".join("%d %s" % (k, G.stmt_sx(s, lay)) for k, s in enumerate(stmts) if G.stmt_sx(s, lay) is not None) + "\n"
         rcm, mo, mse = C.sh(model, inp=minp, timeout=900)
         mlines = {}
         for l in mo.split("\n"):
@@ -127,7 +127,7 @@ def check(run, replay=None):
                     if s.kind == "compound" and s.shifted:
                         key = "compound-shifted-overlap"
                     else:
-                        key = "semantics:%s" % (s.kind if s.kind != "reduce" else "reduce:" + s.red)
+                        key = "semantics:%s" % (s.kind if s.kind not in ("reduce", "reddim") else s.kind + ":" + s.red)
                     what = ("statement [%s]: parent %s becomes [%s] but evaluating the whole right-hand side first gives [%s]"
                             % (text, bad[0], " ".join(mem.get(bad[0], [])), " ".join(map(str, want_mem[bad[0]]))) if bad else
                             "statement [%s] returns %s, definition gives %s" % (text, res, want_res))
@@ -145,14 +145,14 @@ def check(run, replay=None):
     cov["samples"] = [{"statement": G.stmt_cxx(stmts[k])} for k in (0, len(stmts) // 3, len(stmts) // 2, len(stmts) - 1)]
     kinds = {}
     for s in stmts:
-        kk = s.kind if s.kind != "reduce" else "reduce:" + s.red
+        kk = s.kind if s.kind not in ("reduce", "reddim") else s.kind + ":" + s.red
         kinds[kk] = kinds.get(kk, 0) + 1
     cov["statement_kinds"] = kinds
     cov["rule"] = ("random passive statements over six parent arrays (ranks 1-3, one with padded rows): plain, compound (+= -= *=), where, scalar fill, noalias (disjoint operands only), "
-                   "reductions (sum product maxval minval count, sum along a dimension, dot_product); targets and operands are views with positive/negative strides, scalar indices, transposes; "
+                   "reductions (sum product maxval minval count, sum / product / maxval / minval along a dimension of rank-2 and rank-3 expressions, dot_product), find, minloc / maxloc (first occurrence), integer-vector-indexed targets and sources whose index vector is contiguous, strided or reversed (specification only); targets and operands are views with positive/negative strides, scalar indices, transposes; "
                    "operands drawn from the target's own parent with probability 0 / 0.5 / 0.9 (disjoint, shifted, reversed, identical overlaps); expression nodes + - * max min neg scalar "
                    "spread outer_product; generated as C++ and executed under ASan; every parent compared (integer data, exact) with the 'whole right-hand side first' specification and with the "
                    "Coq model. where-masks never read shifted target elements (the mask is not the right-hand side). Non-trivial = right-hand side reads the target's parent.")
     cov["traces_validated_against_impl"] = cov["evaluations"]
-    run.assumptions += ["integer-vector-indexed targets, find, minloc/maxloc are compared through the specification only in the thorough tier of later rounds (not yet in the generator)",
+    run.assumptions += ["integer-vector-indexed targets / sources, find, minloc/maxloc and reductions other than sum along a dimension are compared with the specification only (not in the Coq model); right-hand sides of indexed targets do not read the target's parent",
                         "column-major default order (set_array_row_major_order(false)) not yet exercised"]
